@@ -273,3 +273,93 @@ impl Group for Isolation {
         o.starts_with("ok hosts=") && o != "ok hosts=0" && o != "ok hosts=1"
     }
 }
+
+/// routing per request on one keep-alive connection through a real server
+pub struct Conn;
+impl Group for Conn {
+    fn name(&self) -> &'static str {
+        "c15.conn"
+    }
+    fn rule(&self) -> &'static str {
+        "a real loopback server (no SNI) with a generated collection; ONE keep-alive connection carrying 3-8 requests whose Host headers name different hosts / unknown names / loopback names; each response must come from the host the model routes that request to (marker body) or be 409; compared per request with `route`; non-trivial = at least two different outcomes on the connection"
+    }
+    fn parallel(&self) -> bool {
+        false
+    }
+    fn generate(&self, ctx: &Ctx, rng: &mut Rng) -> Vec<String> {
+        let n = if ctx.mode == Mode::Quick { 24 } else { 400 };
+        (0..n)
+            .map(|_| {
+                let ops = gen_ops(rng);
+                let k = rng.range(3, 8);
+                let reqs = list((0..k).map(|_| {
+                    let mut nme = gen_name(rng);
+                    // header values must be valid for the raw client too
+                    // … and a valid authority, else the request head is rejected before routing
+                    if nme.iter().any(|c| *c >= 0x80) || http::uri::Authority::try_from(&nme[..]).is_err() {
+                        nme = b"unknown.example".to_vec();
+                    }
+                    hex(&nme)
+                }));
+                format!("c15.conn {ops} {reqs}")
+            })
+            .collect()
+    }
+    fn driver_line(&self, line: &str) -> String {
+        // expanded inside run_impl (one route line per request); keep the protocol 1:1 with a constant
+        let _ = line;
+        "c15.route [] none none".into()
+    }
+    fn canon(&self, out: &str) -> String {
+        if out == "ok" || out == "none" { "match".into() } else { out.to_owned() }
+    }
+    fn run_impl(&self, ctx: &Ctx, line: &str) -> String {
+        use crate::server::*;
+        let p: Vec<&str> = line.split(' ').collect();
+        let (coll, _) = build(p[1], true);
+        let Some(srv) = TestServer::try_start(coll) else { return "inconclusive: server did not start".into() };
+        let mut cl = StrictClient::new(std::net::TcpStream::connect(("127.0.0.1", srv.port)).unwrap());
+        cl.stream.set_read_timeout(Some(std::time::Duration::from_secs(5))).unwrap();
+        let names = parse_list(p[2]).unwrap();
+        let mut observed = Vec::new();
+        let mut lines = Vec::new();
+        for h in &names {
+            let name = unhex(h).unwrap();
+            let mut raw = b"GET /q HTTP/1.1\r\nhost: ".to_vec();
+            raw.extend_from_slice(&name);
+            raw.extend_from_slice(b"\r\n\r\n");
+            lines.push(format!("c15.route {} none {h}", p[1]));
+            if cl.send(&raw).is_err() {
+                observed.push("closed".to_owned());
+                break;
+            }
+            match cl.read_response(false) {
+                Ok(r) if r.status == 409 => {
+                    observed.push("none".into());
+                    break; // kvarn closes the connection after a 409
+                }
+                Ok(r) => {
+                    let b = String::from_utf8_lossy(&r.body).into_owned();
+                    observed.push(b.strip_prefix("host").and_then(|x| x.split(' ').next()).unwrap_or("?").to_owned());
+                }
+                Err(e) => {
+                    observed.push(format!("{e:?}"));
+                    break;
+                }
+            }
+        }
+        srv.stop();
+        let predicted = run_driver(&ctx.driver, &lines[..observed.len()]).unwrap_or_default();
+        if observed == predicted {
+            "ok".into()
+        } else {
+            format!("mismatch observed={observed:?} model={predicted:?}")
+        }
+    }
+    fn oracle(&self, _ctx: &Ctx, line: &str, out: &str) -> Option<(String, String)> {
+        if out == "ok" { None } else { Some((format!("conn:{line}"), format!("a request on a reused connection was not answered by the host its Host header names: {out}"))) }
+    }
+    fn classify(&self, _l: &str, o: &str) -> String {
+        o.split(' ').next().unwrap_or("").to_owned()
+    }
+}
